@@ -242,6 +242,40 @@ def register(w):
         c.may_raise("TypeError", ensures=[f"same({Q}, old({Q})) and same({ACC}, old({ACC}))"])
         c.after("await self._event_queue.put(event_obj)", f"{ACC} = append({ACC}, event_obj)")
 
+    @w.contract(AI + "_settle_transient_transitions", props=["C13", "C05", "C01"])
+    def _(c):
+        # the asyncio twin of SyncInterpreter._process_transient_transitions: same clauses
+        c.no_runtime = True
+        c.mod(*STATE, Q, ACC, "Flag.is_set", "Trans.target_str")
+        c.req(f"legal({A})", "ghost:self._is_processing", f"wf_state({A}, self._history)", "root.max_iterations >= 0")
+        KEEP_S = [f"legal({A})", f"appended_only(old({Q}), old({ACC}), {Q}, {ACC})", "status_reach(old(self.status), self.status)", f"wf_state({A}, self._history)"]
+        for k_ in KEEP_S:
+            c.ens(k_, label=("ghost:queue-append-only" if k_.startswith("appended_only") else None))
+        c.may_raise("Exception", ensures=[("ghost:" + k_ if k_.startswith("appended_only") else k_) for k_ in KEEP_S])
+        c.loop(0, inv=[*KEEP_S, "self._is_processing", "iterations >= 0", "limit == root.max_iterations"],
+               decreases="ite(limit - iterations + 1 > 0, limit - iterations + 1, 0)")
+
+    @w.contract(AI + "start", props=["C14", "C05", "C01"])
+    def _(c):
+        c.no_runtime = True
+        c.returns(w.self_sort)
+        c.mod(*STATE, Q, ACC, "Flag.is_set", "Trans.target_str", "self._event_loop_task", "self._is_processing")
+        c.req("valid_status(self.status)", "root.max_iterations >= 0", "not self._is_processing", f"wf_state({A}, self._history)",
+              f"implies(self.status == 'uninitialized', forall[Node](lambda n: not (n in {A})))")
+        # for the asyncio engine `_is_processing` is a model-only flag (A-processing): "an event / the initial entry is being processed"
+        c.before("await self._enter_states([self.machine], init_event)", "self._is_processing = True")
+        c.after("await self._settle_transient_transitions()", "self._is_processing = False")
+        FRESH = "old(self.status) == 'uninitialized'"
+        c.ens("status_reach(old(self.status), self.status) and valid_status(self.status)", label="status-edge-allowed")
+        c.ens(f"implies({FRESH}, self.status != 'uninitialized' and legal({A}))", label="legal-configuration-when-start-returns")
+        c.ens(f"implies(not {FRESH}, self.status == old(self.status) and set_eq({A}, old({A})) and same({Q}, old({Q})))", label="start-is-idempotent-once-started")
+        c.ens("result == self", label="returns-self")
+        c.may_raise("InvalidConfigError")
+        c.may_raise("CancelledError")
+        c.may_raise("Exception", ensures=[("a-failed-start-leaves-the-interpreter-stopped", f"implies({FRESH}, self.status == 'stopped')")])
+        c.loop(0, inv=["self.status == old(self.status)", f"set_eq({A}, old({A}))", f"same({Q}, old({Q}))", f"not ({FRESH})"])
+        c.loop(1, inv=["self.status == 'running'", f"forall[Node](lambda n: not (n in {A}))", f"wf_state({A}, self._history)", "not self._is_processing"])
+
     FIRE_MODS = ["self.status", "self.output", Q, ACC]
 
     def fire_clauses(c):
